@@ -29,7 +29,33 @@ container_token = Contract(
     note="List/Tuple: the token lists the argument tokens IN ORDER, so equal tokens imply (with injective component tokens: C12, assumed) equal argument sequences and hence equal values. Set (sorted) and Dict (sorted pairs) branches are bounded natively.",
 )
 
-CONTRACTS = [container_token]
+Key = T.U("Key")
+Node = T.U("Node")
+Graph = T.Map(Key, Node)
+SetK = T.Set(Key)
+node_deps = z3.Function("node_deps", Node.sort(), SetK.sort())
+
+cull = Contract(
+    MODULE, "cull",
+    params={"dsk": Graph, "keys": T.Seq(Key)},
+    locals={"work": SetK, "seen": SetK, "dsk2": Graph, "k": Key, "v": Node},
+    returns=Graph,
+    requires=[("lens", "len(keys) >= 0")],
+    ensures=[
+        ("C09-requested-keys-kept", "forall(lambda j: implies(0 <= j and j < len(keys) and keys[j] in dsk.keys(), keys[j] in result.keys()))"),
+        ("C09-subgraph-identical", "forall(lambda k: implies(k in result.keys(), k in dsk.keys() and result[k] == dsk[k]), Key)"),
+        ("C09-closed-under-dependencies", "forall(lambda k, d: implies(k in result.keys() and d in node_deps(dsk[k]) and d in dsk.keys(), d in result.keys()), Key, Key)"),
+    ],
+    loops={0: dict(invariant=[
+        ("subgraph", "dsk2.keys() == seen and forall(lambda k: implies(k in seen, k in dsk.keys() and dsk2[k] == dsk[k]), Key)"),
+        ("requested", "forall(lambda j: implies(0 <= j and j < len(keys) and keys[j] in dsk.keys(), keys[j] in seen or keys[j] in work))"),
+        ("pending", "forall(lambda k, d: implies(k in seen and d in node_deps(dsk[k]) and d in dsk.keys(), d in seen or d in work), Key, Key)"),
+    ])},
+    drop=["if not isinstance(keys, (list, set, tuple))"],
+    note="the task-spec cull (work-set traversal through bound-method aliases wpop/wupdate/sadd); keys given as a list",
+)
+
+CONTRACTS = [container_token, cull]
 
 
 def model_type_name(eng, st, base, node):
@@ -38,6 +64,9 @@ def model_type_name(eng, st, base, node):
 
 
 def setup(eng):
+    eng.spec_types["Key"] = Key
+    eng.funcs["node_deps"] = FuncVal("node_deps", "uf", (node_deps, SetK, [Node]))
+    eng.attr_models[("attr", "Node", "dependencies")] = lambda eng_, st, base, node: SV(node_deps(base.t), SetK)
     eng.enums.append(Klass)
     eng.funcs["tokenize"] = FuncVal("tokenize", "uf", (tok, Tok, [Arg]))
     eng.consts["set"] = SV(Klass.const("set"), Klass)
